@@ -625,8 +625,13 @@ func (s *session) opPushHostile(rt *rapid.T) {
 		rt.Skip("push budget used")
 	}
 	subj := s.pickActive("hostileSubject")
-	kinds := []string{"zero-layers", "zero-layers", "two-layers", "two-layers", "two-layers", "oversize-blob", "oversize-blob", "oversize-blob"}
+	var kinds []string
+	for i := 0; i < 3; i++ {
+		kinds = append(kinds, "zero-layers", "zero-layers", "two-layers", "two-layers", "two-layers", "oversize-blob", "oversize-blob", "oversize-blob")
+	}
 	if s.bigOnes == 0 {
+		// 4 MiB manifests are the expensive part of a session (hashing, disk, JSON decoding on
+		// every listing): at most one per session, in roughly every sixth session
 		kinds = append(kinds, "oversize-manifest", "oversize-manifest", "at-manifest-cap")
 	}
 	kind := rp.Pick(rt, "hostileKind", kinds...)
